@@ -180,8 +180,8 @@ theorem C09_pages_resume_partial (w : List PN) (srt : SortBy) (c : Cons) (limit 
 /-- a world with massively tied, pre-1970 and sub-second times: three permanodes share the
 modification time −5 ns, two share the creation time 0.000000001 s -/
 def wTies : List PN :=
-  [⟨rk 1, none, true, false, [-5]⟩, ⟨rk 2, some 1, true, false, [-5]⟩, ⟨rk 3, some 1, true, true, [-5, -7]⟩,
-   ⟨rk 4, some (-1000000000), false, true, [1322443956000123456]⟩, ⟨rk 5, none, false, false, []⟩]
+  [⟨rk 1, none, true, false, [-5], false, none⟩, ⟨rk 2, some 1, true, false, [-5], false, none⟩, ⟨rk 3, some 1, true, true, [-5, -7], false, none⟩,
+   ⟨rk 4, some (-1000000000), false, true, [1322443956000123456], false, none⟩, ⟨rk 5, none, false, false, [], false, none⟩]
 
 example : WorldOK gtbl wTies := ⟨by decide, by decide⟩
 example : ∀ k ∈ fullOrdered wTies .lastMod .all, InInt64 k.1 := by decide
@@ -198,7 +198,7 @@ theorem C09_old_paging_repeats_counterexample :
 
 /-- two permanodes created in the year 2262, just after `Time.UnixNano` overflows (2^63 ns) -/
 def wFar : List PN :=
-  [⟨rk 1, some 9223372036854775808, false, false, [-5]⟩, ⟨rk 2, some 9223372036854775813, false, false, [-5]⟩]
+  [⟨rk 1, some 9223372036854775808, false, false, [-5], false, none⟩, ⟨rk 2, some 9223372036854775813, false, false, [-5], false, none⟩]
 
 example : WorldOK gtbl wFar := ⟨by decide, by decide⟩
 
@@ -314,8 +314,8 @@ theorem C09_around_unsorted_window (w : List PN) (us : USort) (c : Cons) (lim : 
 
 /-- four permanodes whose creation order (4, 3, 2, 1 ns) is the reverse of their ref order -/
 def wAsc : List PN :=
-  [⟨rk 1, some 4, false, false, [-5]⟩, ⟨rk 2, some 3, false, false, [-5]⟩,
-   ⟨rk 3, some 2, false, false, [-5]⟩, ⟨rk 4, some 1, false, false, [-5]⟩]
+  [⟨rk 1, some 4, false, false, [-5], false, none⟩, ⟨rk 2, some 3, false, false, [-5], false, none⟩,
+   ⟨rk 3, some 2, false, false, [-5], false, none⟩, ⟨rk 4, some 1, false, false, [-5], false, none⟩]
 
 example : sortU wAsc .createdAsc (matchedU wAsc .all) = some [rk 4, rk 3, rk 2, rk 1] := by decide
 example : queryUnsorted true wAsc .createdAsc .all 2 [] (some (rk 3).toRef) = .ok [rk 4, rk 3] := by decide
